@@ -111,7 +111,11 @@ CHECKS = {
              "every generated program instrumented with subsets of the deferred events (zero-argument thunks, the two-argument binop thunk, the compare thunk). "
              "C08_make_ret is proved about _make_ret as REGENERATED from emit_event.py on every run: a callable handler result is used as the computation, any "
              "other value is wrapped into a constant computation, non-deferred events are unchanged. The oracle runs plain vs instrumented (the recorder calls "
-             "in generated expressions make evaluation count and order observable) and 72 override templates (15 events x thunk / functools.partial / value / Null / nothing).",
+             "in generated expressions make evaluation count and order observable) and 72 override templates (15 events x thunk / functools.partial / value / Null / nothing). "
+             "C08_frag_overrides (model/FragOv.v) is UNBOUNDED on a fragment of Python: for all primitive operations, ALL handler tables (what each value event's handler hands back, what "
+             "each deferred event's handler hands back), subscriptions, modules and environments, the instrumented module ends with the exception and bindings of the override reference "
+             "(source semantics in which subscribed handlers act on the values; an overridden deferred event still evaluates the operands outside the thunk and nothing inside it) and "
+             "delivers its stream; tied to real runs with table-driven overriding handlers by K-ov (60 programs per run).",
         note="As C01. Comparison chains under before_compare were a finding (every comparator evaluated up front); fixed, the erasure now certifies the repaired shape.",
         ref="DESIGN.md section 7 C08"),
     "C09": dict(
